@@ -129,6 +129,31 @@ pub fn classify(stats: &mut Stats, g: &GCase, a: &Analysis) -> cfg::Shape {
     sh
 }
 
+/// Size classes of a source text (length thresholds: 8-bit lengths, 16-bit positions).
+pub fn text_size_classes(text: &str, st: &mut Stats) {
+    if text.len() > 65_536 {
+        st.class("size:text-longer-than-64KiB");
+    }
+    if text.len() > 300 {
+        let mut run = 0usize;
+        let mut longest = 0usize;
+        for b in text.bytes() {
+            if b == b' ' || b == b'\n' || b == b'\t' || b == b'\r' {
+                run = 0;
+            } else {
+                run += 1;
+                longest = longest.max(run);
+            }
+        }
+        if longest > 255 {
+            st.class("size:unbroken-piece-longer-than-255-bytes");
+        }
+        if longest > 65_535 {
+            st.class("size:unbroken-piece-longer-than-64KiB");
+        }
+    }
+}
+
 pub fn text_case(text: &str) -> Value {
     json!({ "source": text })
 }
